@@ -291,7 +291,7 @@ def trans_spec(kind, L, explicit):
     if kind == "sum":
         return Tm.trans_sum, ({} if explicit else None), 1, R.t_sum
     if kind == "dot":
-        w = [1.0, -2.0, 3.0, 0.5, -1.5, 2.5, 4.0, -0.25][:L]
+        w = ([1.0, -2.0, 3.0, 0.5, -1.5, 2.5, 4.0, -0.25] + [0.5 * ((j * 3) % 7) - 1.25 for j in range(8, L)])[:L]
         assert len(w) == L
         return Tm.trans_dot, {"latentvec_wt": A(w)}, 1, lambda x, lat: R.t_dot(x, lat, w)
     if kind == "user":
